@@ -82,6 +82,18 @@ def scenarios(quick: bool) -> list[tuple[dict, int]]:
             for to in (0.5001, 20.0):
                 p = {"qos_mode": False, "callers": [caller(cmd, timeout=to), caller("rq30c9_02", timeout=to)], "dev": ("disc", "drop", "late"), "disc_err": err}
                 sc.append((p, 2))
+    # the wall clock the queue stamps its entries with: 1 ms resolution (callers in the same millisecond read the same time) / set back
+    # by an hour after the first caller (end of DST for naive local time, NTP) - each send must still end with a packet or a ProtocolError
+    for wc in ("coarse", "stepback"):
+        for prios in (("DEFAULT", "DEFAULT"), ("DEFAULT", "DEFAULT", "DEFAULT"), ("LOW", "HIGH", "LOW"), ("HIGH", "HIGH", "DEFAULT")):
+            for start in ("t0", "q"):
+                p = {
+                    "qos_mode": False,
+                    "wallclock": wc,
+                    "callers": [caller(f"rq30c9_0{i+1}", prio=pr, timeout=20.0, start="t0" if i == 0 else start) for i, pr in enumerate(prios)],
+                    "dev": ("drop", "call"),
+                }
+                sc.append((p, 1))
     if not quick:
         for to in (0.5001, 1.5001, 20.0):
             for wfr in (True, False):
